@@ -18,6 +18,8 @@ type causState struct {
 	committed map[string]int // event hash -> commit position
 	closed    map[string]bool
 	pos       int
+	blockOf   map[string]int // event hash -> index of the block that committed it
+	epoch     int
 }
 
 type MonCausality struct {
@@ -35,11 +37,27 @@ func (m *MonCausality) AfterStep(nw *Network) {
 		app := n.App
 		s := m.st[app]
 		if s == nil {
-			s = &causState{committed: map[string]int{}, closed: map[string]bool{}}
+			s = &causState{committed: map[string]int{}, closed: map[string]bool{}, blockOf: map[string]int{}}
 			m.st[app] = s
 		}
 		for i := s.processed; i < len(app.Delivered); i++ {
 			d := app.Delivered[i]
+			if d.Epoch != s.epoch {
+				// the application was restored to the snapshot of a fast-sync anchor:
+				// what it had received in blocks after the anchor is undone and will be
+				// delivered again
+				s.epoch = d.Epoch
+				if a, ok := n.AnchorAtReset[d.Epoch]; ok {
+					for h, b := range s.blockOf {
+						if b > a {
+							delete(s.committed, h)
+							delete(s.blockOf, h)
+							delete(s.closed, h)
+							nw.Res.count("causality_commitments_undone_by_a_restore", 1)
+						}
+					}
+				}
+			}
 			if !m.checkBlock(nw, n, s, d) {
 				return
 			}
@@ -119,6 +137,7 @@ func (m *MonCausality) checkBlock(nw *Network, n *SimNode, s *causState, d *Deli
 		}
 		s.pos++
 		s.committed[hash] = s.pos
+		s.blockOf[hash] = d.Index
 		re := nw.Rec.Events[hash]
 		if re == nil || !re.loaded() {
 			continue
